@@ -22,4 +22,16 @@ PH == (0 :> O("put", 13, 1)) @@ (1 :> O("scan", 0, 0)) @@ (2 :> O("rem", 2, 0))
 PI == (0 :> O("put", 4, 1)) @@ (1 :> O("scan", 0, 0)) @@ (2 :> O("rem", 12, 0))
 \* j: full scan vs split of the LEFT border (B3 appears between the border under the scanner and its old next) and removal of B2's last key
 PJ == (0 :> O("put", 5, 1)) @@ (1 :> O("scan", 0, 0)) @@ (2 :> O("rem", 10, 0))
+\* k: cursor (open + next until the end, collecting node versions) vs an insert that splits B2 and a reader
+PK == (0 :> O("put", 13, 1)) @@ (1 :> O("iscan", 0, 0)) @@ (2 :> O("get", 13, 0))
+\* l: cursor vs split of B2 and removal of B1's last key (collapse / new root under the cursor)
+PL == (0 :> O("put", 13, 1)) @@ (1 :> O("iscan", 0, 0)) @@ (2 :> O("rem", 2, 0))
+\* m: cursor vs a plain insert into B1 and a remove in B2
+PM == (0 :> O("put", 4, 1)) @@ (1 :> O("iscan", 0, 0)) @@ (2 :> O("rem", 12, 0))
+\* n: cursor vs split of the LEFT border and removal of B2's last key
+PN == (0 :> O("put", 5, 1)) @@ (1 :> O("iscan", 0, 0)) @@ (2 :> O("rem", 10, 0))
+\* o: full scan vs removal of B1's only key (B1 unlinked, its range falls to B2) and a re-insert of that key (lands in B2, under the scanner)
+PO == (0 :> O("put", 2, 1)) @@ (1 :> O("scan", 0, 0)) @@ (2 :> O("rem", 2, 0))
+\* p: the same with the cursor
+PP == (0 :> O("put", 2, 1)) @@ (1 :> O("iscan", 0, 0)) @@ (2 :> O("rem", 2, 0))
 ====
